@@ -3680,6 +3680,9 @@ def solve(m: types.Model, d: types.Data):
 
   if d.njmax == 0 or m.nv == 0:
     wp.copy(d.qacc, d.qacc_smooth)
+    if m.nv:
+      # the integrators consume efc.Ma = M @ qacc
+      support.mul_m(m, d, d.efc.Ma, d.qacc)
     d.solver_niter.fill_(0)
   else:
     ctx = _create_solver_context(m, d)
